@@ -635,6 +635,11 @@ pub fn run(ctx: &mut Ctx) {
     ctx.threads = 1; // the sniffer sees all loopback UDP traffic; keep it quiet
     ctx.run_enum("raw-port-0", raw, false, prop_raw);
     ctx.threads = saved;
+    // the mio back end's resend queue: sendto failures injected into a child process by strace
+    ctx.run_regress::<crate::checks::sendfault::SendFaultCase, _>("send-faults", crate::checks::sendfault::prop_send_fault);
+    ctx.threads = saved.min(8);
+    ctx.run_enum("send-faults", crate::checks::sendfault::cases(ctx.seed, tier), false, crate::checks::sendfault::prop_send_fault);
+    ctx.threads = saved;
     for l in ["foreign-ip-id", "forged-id", "mutated", "sendable-parse-error", "stale-ids", "uring", "mio", "silence", "announce", "scrape", "error-reply", "access-list-refusal"] {
         ctx.require_label("datagrams", l, 0.05);
     }
@@ -793,6 +798,7 @@ pub fn prop_raw(case: &RawCase) -> CaseResult {
 pub fn replay(path: &str, sub: &str, case: serde_json::Value) -> i32 {
     match sub {
         "raw-port-0" => replay_one::<RawCase, _>("C06", path, case, prop_raw),
+        "send-faults" => replay_one::<crate::checks::sendfault::SendFaultCase, _>("C06", path, case, crate::checks::sendfault::prop_send_fault),
         _ => replay_one::<Case, _>("C06", path, case, prop),
     }
 }
